@@ -715,6 +715,10 @@ def _child_main(case, wfd, watchdog_s):
             finish(H.result)
 
         threading.Thread(target=watchdog, daemon=True).start()
+        if case.get("mutate"):  # sanity mutations of the code under test, see bounded/_c12_mut.py
+            from bounded import _c12_mut
+
+            _c12_mut.apply(case["mutate"])
         H.build()
         H.in_run = True
         try:
